@@ -145,6 +145,23 @@ fn c01_search(seed: u64) -> Option<(Vec<u8>, String)> {
     c01_batch(all)
 }
 
+fn c01_bitmap_search(seed: u64) -> Option<(Vec<u8>, String)> {
+    // CSYNC RDATA = serial(4) flags(2) type-bitmap; wrapped in a record so that RData::read dispatches to it
+    let mut all = Vec::new();
+    let mut r = Rng(seed.wrapping_mul(0xC2B2AE3D27D4EB4F) | 1);
+    let mk = |bm: &[u8]| -> Vec<u8> {
+        let mut b = vec![0u8, 0, 62, 0, 1, 0, 0, 0, 1];          // root owner, TYPE=CSYNC(62), CLASS=IN, TTL=1
+        let rdlen = (6 + bm.len()) as u16; b.extend_from_slice(&rdlen.to_be_bytes());
+        b.extend_from_slice(&[0, 0, 0, 1, 0, 0]); b.extend_from_slice(bm); b
+    };
+    for win in [0u8, 1, 255] { for len in [0u8, 1, 31, 32, 33, 34, 64, 255] { for last in [0u8, 1, 0x40, 0x80, 0xff] {
+        let mut bm = vec![win, len]; bm.extend(std::iter::repeat(0).take(len.saturating_sub(1) as usize)); bm.push(last); all.push(mk(&bm));
+        let mut bm2 = vec![win, len]; bm2.extend(std::iter::repeat(last).take(len as usize)); all.push(mk(&bm2));
+    } } }
+    for _ in 0..20000 { let n = r.below(80) as usize; let bm: Vec<u8> = (0..n).map(|_| match r.below(4) { 0 => 0, 1 => 0x21, 2 => 0xff, _ => (r.next() & 0xff) as u8 }).collect(); all.push(mk(&bm)); }
+    c01_batch(all)
+}
+
 // ---------------------------------------------------------------- C03: size-limited encoding
 fn c03_build(r: &mut Rng) -> Message {
     let mut m = Message::query();
@@ -398,7 +415,7 @@ fn main() {
     if args[2] == "--input" {
         let inp = args.get(3).cloned().unwrap_or_default();
         let res = match orc {
-            "c01_decode" => c01_check(&unhex(&inp)),
+            "c01_decode" | "c01_bitmap" => c01_check(&unhex(&inp)),
             "c03_trunc" => { let s0 = u64::from_str_radix(&inp[..16], 16).unwrap(); let lim = u16::from_str_radix(&inp[16..20], 16).unwrap(); let mut r = Rng(s0); c03_check(&c03_build(&mut r), lim) }
             "c04_order" => { let (a, b) = dec_labels(&inp); c04_check(&a, &b) }
             "c02_roundtrip" => c02_check(inp.parse().unwrap()),
@@ -414,6 +431,7 @@ fn main() {
     let seed: u64 = args[2].parse().unwrap_or(0);
     let found: Option<(String, String)> = match orc {
         "c01_decode" => c01_search(seed).map(|(b, e)| (hex(&b), e)),
+        "c01_bitmap" => c01_bitmap_search(seed).map(|(b, e)| (hex(&b), e)),
         "c03_trunc" => c03_search(seed),
         "c04_order" => c04_search(seed),
         "c02_roundtrip" => c02_search(seed),
